@@ -184,6 +184,20 @@ class SNoneT(V):
 NONE = SNoneT()
 
 
+class SOpt(V):
+    """T | None for a scalar T, without forking: `isnone` is a z3 Bool, `val` the value if not None"""
+
+    kind = "opt"
+    __slots__ = ("isnone", "val")
+
+    def __init__(self, isnone, val):
+        self.isnone = isnone
+        self.val = val
+
+    def __repr__(self):
+        return f"SOpt({self.isnone}, {self.val})"
+
+
 class SBytes(V):
     """bytes / bytearray / memoryview: a z3 sequence of ints in 0..255.
 
